@@ -88,12 +88,27 @@ package multiplex
 //@ ghost func samePayloadAead(o *Obfuscator, g *Frame, f *Frame) bool { return o.payloadCipher != nil ==> (forall k int :: 0 <= k && k < len(g.Payload) ==> g.Payload[k] == old(f.Payload[k])) }
 //@ ghost func nonceAgree(o *Obfuscator, f *Frame, m []byte) bool { return rxNonce(o, m) == nonceOf(f.StreamID, f.Seq) }
 //@ ghost func extraAgree(o *Obfuscator, f *Frame, m []byte) bool { return int(plainHdr(o, m, 13)) == len(m) - 14 - len(f.Payload) && len(m) - 14 - len(f.Payload) >= tagLen(o) }
+//@ ghost func plainIs(o *Obfuscator, f *Frame, m []byte, i int) bool { return plainHdr(o, m, i) == hdrByte(f.StreamID, f.Seq, f.Closing, len(m) - 14 - len(f.Payload), i) }
 //@ lemma func roundTrip(o *Obfuscator, f *Frame, g *Frame, buf []byte, off int) {
 //@     if o == nil || f == nil || g == nil || f == g { return }
 //@     assume(encPre(o, f, buf, off))
 //@     n, err := o.obfuscate(f, buf, off)
 //@     if err != nil { return }
 //@     m := buf[:n]
+//@     assert(plainIs(o, f, m, 0))
+//@     assert(plainIs(o, f, m, 1))
+//@     assert(plainIs(o, f, m, 2))
+//@     assert(plainIs(o, f, m, 3))
+//@     assert(plainIs(o, f, m, 4))
+//@     assert(plainIs(o, f, m, 5))
+//@     assert(plainIs(o, f, m, 6))
+//@     assert(plainIs(o, f, m, 7))
+//@     assert(plainIs(o, f, m, 8))
+//@     assert(plainIs(o, f, m, 9))
+//@     assert(plainIs(o, f, m, 10))
+//@     assert(plainIs(o, f, m, 11))
+//@     assert(plainIs(o, f, m, 12))
+//@     assert(plainIs(o, f, m, 13))
 //@     assert(nonceAgree(o, f, m))
 //@     assert(extraAgree(o, f, m))
 //@     err2 := o.deobfuscate(g, m)
@@ -128,3 +143,73 @@ package multiplex
 //@ func makeSwitchboard
 //@   requires sesh != nil
 //@   ensures fresh(ret0) && ret0.session == sesh && ret0.valve == sesh.Valve && ret0.strategy == uniformSpread && ret0.connsCount == 0 && ret0.broken == 0
+
+// ---------------------------------------------------------------------------------------------
+// C11 authenticity. Scenario of the lemmas: one honest message m = obfuscate(f) exists under this
+// session key; the adversary presents any byte string m2 (any length, own buffer). Ideal AEAD
+// (assumption "onlyHonestSealing"): under the session key, Open accepts a (nonce, ciphertext) pair
+// only if it is the pair that was honestly sealed.
+//   tamperAllButFlagBytes (proved): an accepted m2 has the length of m and equals it at every byte
+//       position except possibly 12 (closing flag) and 13 (extra length).
+//   tamperStrict (known finding F4, fails): an accepted m2 equals m everywhere. It fails because header
+//       bytes 12 and 13 are covered neither by the AEAD nonce (bytes 0..11) nor by the tag.
+// ---------------------------------------------------------------------------------------------
+//@ ghost func attackerBuf(o *Obfuscator, buf []byte, m2 []byte) bool { return arrayOf(m2) != arrayOf(buf) && arrayOf(m2) != arrayOf(o.sessionKey) }
+//@ ghost func onlyHonestSealing(o *Obfuscator, m []byte, m2 []byte) bool {
+//@     return old(rxValid(o, m2)) ==> (old(rxNonce(o, m2)) == rxNonce(o, m) && len(m2) == len(m) && (forall j int :: 14 <= j && j < len(m) ==> old(m2[j]) == m[j]))
+//@ }
+//@ ghost func sameAsHonestExcept1213(m []byte, m2 []byte) bool { return len(m2) == len(m) && (forall i int :: 0 <= i && i < len(m) && i != 12 && i != 13 ==> old(m2[i]) == m[i]) }
+//@ ghost func sameAsHonest(m []byte, m2 []byte) bool { return len(m2) == len(m) && (forall i int :: 0 <= i && i < len(m) ==> old(m2[i]) == m[i]) }
+//@ ghost func hdrAgree(o *Obfuscator, m []byte, m2 []byte, i int) bool { return old(m2[i]) == m[i] }
+//@ ghost func reXor(o *Obfuscator, m []byte, i int) bool { return xorb(plainHdr(o, m, i), ksByte(o, m, i)) == m[i] }
+//@ ghost func reXorOld(o *Obfuscator, m2 []byte, i int) bool { return old(xorb(plainHdr(o, m2, i), ksByte(o, m2, i)) == m2[i]) }
+//@ ghost func ksAgree(o *Obfuscator, m []byte, m2 []byte) bool { return old(rxValid(o, m2)) && old(rxNonce(o, m2)) == rxNonce(o, m) && (forall t int :: 0 <= t && t < 14 ==> old(ksByte(o, m2, t)) == ksByte(o, m, t)) }
+//@ lemma func tamperAllButFlagBytes(o *Obfuscator, f *Frame, g *Frame, buf []byte, off int, m2 []byte) {
+//@     if o == nil || f == nil || g == nil || f == g || o.payloadCipher == nil { return }
+//@     assume(encPre(o, f, buf, off) && attackerBuf(o, buf, m2))
+//@     n, err := o.obfuscate(f, buf, off)
+//@     if err != nil { return }
+//@     m := buf[:n]
+//@     assume(onlyHonestSealing(o, m, m2))
+//@     err2 := o.deobfuscate(g, m2)
+//@     if err2 != nil { return }
+//@     assert(len(m2) == len(m))
+//@     assert(ksAgree(o, m, m2))
+//@     assert(reXorOld(o, m2, 0) && reXor(o, m, 0))
+//@     assert(hdrAgree(o, m, m2, 0))
+//@     assert(reXorOld(o, m2, 1) && reXor(o, m, 1))
+//@     assert(hdrAgree(o, m, m2, 1))
+//@     assert(reXorOld(o, m2, 2) && reXor(o, m, 2))
+//@     assert(hdrAgree(o, m, m2, 2))
+//@     assert(reXorOld(o, m2, 3) && reXor(o, m, 3))
+//@     assert(hdrAgree(o, m, m2, 3))
+//@     assert(reXorOld(o, m2, 4) && reXor(o, m, 4))
+//@     assert(hdrAgree(o, m, m2, 4))
+//@     assert(reXorOld(o, m2, 5) && reXor(o, m, 5))
+//@     assert(hdrAgree(o, m, m2, 5))
+//@     assert(reXorOld(o, m2, 6) && reXor(o, m, 6))
+//@     assert(hdrAgree(o, m, m2, 6))
+//@     assert(reXorOld(o, m2, 7) && reXor(o, m, 7))
+//@     assert(hdrAgree(o, m, m2, 7))
+//@     assert(reXorOld(o, m2, 8) && reXor(o, m, 8))
+//@     assert(hdrAgree(o, m, m2, 8))
+//@     assert(reXorOld(o, m2, 9) && reXor(o, m, 9))
+//@     assert(hdrAgree(o, m, m2, 9))
+//@     assert(reXorOld(o, m2, 10) && reXor(o, m, 10))
+//@     assert(hdrAgree(o, m, m2, 10))
+//@     assert(reXorOld(o, m2, 11) && reXor(o, m, 11))
+//@     assert(hdrAgree(o, m, m2, 11))
+//@     assert(sameAsHonestExcept1213(m, m2))
+//@ }
+//@ lemma func tamperStrict(o *Obfuscator, f *Frame, g *Frame, buf []byte, off int, m2 []byte) {
+//@     if o == nil || f == nil || g == nil || f == g || o.payloadCipher == nil { return }
+//@     assume(encPre(o, f, buf, off) && attackerBuf(o, buf, m2))
+//@     n, err := o.obfuscate(f, buf, off)
+//@     if err != nil { return }
+//@     m := buf[:n]
+//@     assume(onlyHonestSealing(o, m, m2))
+//@     err2 := o.deobfuscate(g, m2)
+//@     if err2 != nil { return }
+//@     assume(sameAsHonestExcept1213(m, m2))
+//@     assert(sameAsHonest(m, m2))
+//@ }
